@@ -239,6 +239,12 @@ _GROUPING_OPERATOR_MAP = {
 _SYSTEM_VARIABLES = frozenset([
     'NOW', 'CLUSTER_TIME', 'REMOVE', 'DESCEND', 'PRUNE', 'KEEP', 'SEARCH_META', 'USER_ROLES'])
 
+# The operators that take exactly one argument: it may be given as a one-item argument list.
+_UNARY_OPERATORS = unary_arithmetic_operators | set(date_part_operators) | {
+    '$arrayToObject', '$isArray', '$isNumber', '$not', '$objectToArray',
+    '$toDecimal', '$toInt', '$toLong', '$toLower', '$toString', '$toUpper',
+}
+
 
 class _Parser(object):
     """Helper to parse expressions within the aggregate pipeline."""
@@ -262,6 +268,12 @@ class _Parser(object):
 
         value_dict = {}
         for k, v in expression.items():
+            if k in _UNARY_OPERATORS and isinstance(v, (list, tuple)):
+                if len(v) != 1:
+                    raise OperationFailure(
+                        'Expression %s takes exactly 1 arguments. %d were passed in.'
+                        % (k, len(v)))
+                v = v[0]
             if k in arithmetic_operators:
                 return self._handle_arithmetic_operator(k, v)
             if k in project_operators:
